@@ -279,7 +279,7 @@ def diff_value(f, a, b, p):
         if not isinstance(b, dict) or len(a) != len(b):
             return "%s: %r -> %r" % (p, a, b)
         for k, x in a.items():
-            hit = [kk for kk in b if type(kk) is type(k) and kk == k]
+            hit = [kk for kk in b if (type(kk) is type(k) or (isinstance(kk, str) and isinstance(k, str))) and kk == k]
             if not hit:
                 return "%s: key %r lost (%r)" % (p, k, list(b))
             d = diff_value(f["valf"], x, b[hit[0]], "%s[%r]" % (p, k)) if f.get("valf") else (
